@@ -83,7 +83,10 @@ def run(chk):
             json.dump(c.get("meta", {}), open(os.path.join(d, "m.json"), "w"))
             common = ["--output-format", "json"] + flags
             jobs.append((i, "raw", [cli, "run", "--raw", raw] + common, None))
-            jobs.append((i, "stdin", [cli, "run", "--stdin"] + common, raw))
+            # every fourth document on stdin is larger than a pipe buffer (it arrives in several reads); unknown
+            # fields are ignored by the decoder
+            big_raw = raw if i % 4 else json.dumps(dict(json.loads(raw), _padding="x" * 300000))
+            jobs.append((i, "stdin", [cli, "run", "--stdin"] + common, big_raw))
             jobs.append((i, "files", [cli, "run", os.path.join(d, "s.num"), "-v", os.path.join(d, "v.json"),
                                       "-b", os.path.join(d, "b.json"), "-m", os.path.join(d, "m.json")] + common, None))
         with ThreadPoolExecutor(max_workers=runner.NPROC) as ex:
